@@ -231,9 +231,50 @@ func wait() {
 
 type Locker = realsync.Locker
 type WaitGroup = realsync.WaitGroup
-type Pool = realsync.Pool
 type Map = realsync.Map
 type Cond = realsync.Cond
+
+// Pool is a deterministic stand-in for sync.Pool: a LIFO free list without
+// per-P caches and without clearing by the collector, so that what a pooled
+// object is handed to next depends on the schedule only.  Every pool registers
+// itself; ResetPools empties them all (the harness calls it before each
+// execution, which keeps executions independent of one another).
+type Pool struct {
+	New        func() interface{}
+	items      []interface{}
+	registered bool
+}
+
+var pools []*Pool
+
+func (p *Pool) Get() interface{} {
+	wait()
+	if n := len(p.items); n > 0 {
+		x := p.items[n-1]
+		p.items = p.items[:n-1]
+		return x
+	}
+	if p.New != nil {
+		return p.New()
+	}
+	return nil
+}
+
+func (p *Pool) Put(x interface{}) {
+	wait()
+	if !p.registered {
+		p.registered = true
+		pools = append(pools, p)
+	}
+	p.items = append(p.items, x)
+}
+
+// ResetPools empties every pool that was used.
+func ResetPools() {
+	for _, p := range pools {
+		p.items = nil
+	}
+}
 
 type Mutex struct {
 	held bool
